@@ -175,9 +175,14 @@ def store_typed(st, T_, v, put):
         for c, a in alts:
             idx = None
             for i, at in enumerate(T_.alts):
-                if type_accepts(at, a):
+                if type_exact(at, a):
                     idx = i
                     break
+            if idx is None:
+                for i, at in enumerate(T_.alts):
+                    if type_accepts(at, a):
+                        idx = i
+                        break
             if idx is None:
                 raise EngineError('value %r fits no alternative of %r (line %s)' % (a, T_, st.cur_line))
             tag = z3.IntVal(idx) if tag is None else z3.If(c, z3.IntVal(idx), tag)
@@ -218,6 +223,16 @@ def store_typed(st, T_, v, put):
         t = single_term(st, T_, a)
         term = t if term is None else z3.If(c, t, term)
     put('', slot_kind(T_), term)
+
+
+def type_exact(T_, v):
+    if isinstance(T_, TInt):
+        return isinstance(v, VInt)
+    if isinstance(T_, TBool):
+        return isinstance(v, VBool)
+    if isinstance(T_, TReal):
+        return isinstance(v, VReal)
+    return type_accepts(T_, v)
 
 
 def type_accepts(T_, v):
@@ -275,7 +290,10 @@ def field_store(st, arrname, T_, ref, v):
 # lists
 # ---------------------------------------------------------------------------
 def elem_arr(T_):
-    return 'EL' if isinstance(T_, TInt) else 'ER'
+    if isinstance(T_, TInt):
+        return 'EL'
+    # object references are kept apart from booleans / callable ids / enum values (closed well-formedness axioms)
+    return 'ER' if (objref(T_) or (isinstance(T_, TOpt) and objref(T_.base))) else 'EX'
 
 
 def inner_sort(st, T_):
@@ -310,9 +328,11 @@ def list_get(st, L, idx):
         raise Unsupported('list element type %r' % (L.elem,))
     inner = list_inner(st, L)
     t = z3.simplify(z3.Select(inner, idx))
-    if reflike(L.elem) or isinstance(L.elem, TOpt):
-        base = st.H0.get(elem_arr(L.elem))
+    if elem_arr(L.elem) == 'ER':
+        base = st.H0.get('ER')
         wf_ref(st, 'ER', z3.Select(z3.Select(base, L.t), idx) if base is not None else None, t)
+        if st.cur_heap() is st.H:
+            st.wf_array('ER', 'ref2')
     return mk_value(st, L.elem, t)
 
 
@@ -384,6 +404,8 @@ def table_has(st, tb, key):
 
 def table_get(st, tb, key):
     t = z3.simplify(z3.Select(table_val(st, tb), key))
+    if st.cur_heap() is st.H:
+        st.wf_array('VAL', 'ref2')
     base = st.H0.get('VAL')
     wf_ref(st, 'VAL', z3.Select(z3.Select(base, tb.t), key) if base is not None else None, t)
     return mk_value(st, tb.val, t)
